@@ -40,6 +40,9 @@ def run(W, chk):
                "Claim and Rewards differ: only in claim %s ; only in query %s" % (
                    sorted((k, sorted(v)) for k, v in ca.items() if qa.get(k) != v)[:6], sorted((k, sorted(v)) for k, v in qa.items() if ca.get(k) != v)[:6]),
                where(sends[0]) if sends else A.entry)
+    from rules.common import all_elements_processed
+    for X, lab in ((A, "Claim"), (Q, "Rewards")):
+        all_elements_processed(chk, W, X, r"^Store\((FARMS|POSITIONS)\)", lab, "LOOP-all-elements")   # every LP denom, every farm
     # exactness: the weight share is never materialised as a fixed-point Decimal (truncated at 18 digits) before it multiplies the
     # emission - floor(e * trunc(w/t)) differs from floor(e*w/t)
     for X, lab in ((A, "Claim"), (Q, "Rewards")):
